@@ -326,15 +326,17 @@ def hook(interp, name, args, kwargs, node):
     if name == "numpy.arange" and all(isinstance(a, (int, Fraction))
                                       for a in args):
         return NArr(list(range(*[int(a) for a in args])))
-    if name == "numpy.argmax" and isinstance(a0, NArr):
+    if name in ("numpy.argmax", "numpy.argmin") and isinstance(a0, NArr):
         ax = args[1] if len(args) > 1 else kwargs.get("axis")
+        sg = 1 if name == "numpy.argmax" else -1
         if len(a0.shape) == 1 and ax in (None, 0):
-            return max(range(len(a0.data)), key=lambda k: (a0.data[k], -k))
+            return max(range(len(a0.data)),
+                       key=lambda k: (sg * a0.data[k], -k))
         if len(a0.shape) == 2 and ax == 0:
             cols = list(zip(*a0.data))
-            return NArr([max(range(len(c)), key=lambda k: (c[k], -k))
+            return NArr([max(range(len(c)), key=lambda k: (sg * c[k], -k))
                          for c in cols])
-        raise Unsupported("argmax axis")
+        raise Unsupported("argmax/argmin axis")
     if name == "numpy.digitize" and isinstance(a0, NArr) and isinstance(
             args[1], NArr) and not kwargs and len(args) == 2:
         bins = args[1].data
